@@ -427,6 +427,11 @@ def run(ctx):
             if any(eb in f.reachable_blocks(b_) for b_ in sm_ for eb in errs):
                 r.violate(key, f"{nm} calls raw.set_modified() on a path that can still return an error: a rejected name/value leaves the token's attributes untouched but its original bytes are dropped, so the tag is re-serialised (quotes, spacing, line breaks normalised) although the call failed", f.loc())
 
+    # ------------------------------------------------------------------ R08.7 (shared with C16 R16.2)
+    # a validated value must end up in the attribute that a re-parse reports: set_attribute replaces whatever the spelling
+    from .c16 import rule_attr_lookup
+    rule_attr_lookup(ctx, mir, rid="R08.7")
+
     ctx.not_decided += ["differences between lol-html's tokenizer and other HTML parsers beyond C03", "decoding of the output under another encoding than the document's (cross-encoding confusion)"]
     return ("Writer/reader agreement decided as language inclusions between the serialiser's reject/escape sets (read from the expanded source) and the "
             "tokenizer automaton extracted from the same tree: exhaustive over all 256 bytes for names, values and body text, and a DFA inclusion "
